@@ -873,6 +873,13 @@ def mk_fn(name, args, kwargs=()):
         return fpow(args[0], Fraction(1, 2))
     if name == "square" and len(args) == 1 and isinstance(args[0], Form):
         return fpow(args[0], Fraction(2))
+    if name == "erfc" and len(args) == 1 and not kwargs and isinstance(args[0], Form) and args[0].terms:
+        # erfc(-u) = 2 - erfc(u): one representative per pair of opposite arguments (sign of the coefficient of the first monomial
+        # in key order), so that the upper tail of one level and the lower tail of the same level are recognised as complements
+        lead = min(args[0].key()[1])
+        c = lead[1]
+        if (c[0] < 0) or (c[0] == 0 and c[1] < 0):
+            return Form.num(2) - Form.atom(("fn", "erfc", (-args[0],), ()))
     if name == "expm1" and len(args) == 1 and not kwargs and isinstance(args[0], Form):
         return mk_fn("exp", [args[0]]) - 1           # exp(u) - 1 (the accurate spelling of the same value)
     if name == "log1p" and len(args) == 1 and not kwargs and isinstance(args[0], Form):
